@@ -112,6 +112,36 @@ theorem single_category_sum (r : Rule) (c : ℕ) (ct : CatTotal) (hr : ct.retain
   rw [hm, add_toRat _ _ (by rw [up_exp]; omega), up_toRat]
   simp [Amount.toRat]
 
+/-- **included tax is taken out with its own percentage**: a row carrying the included category at
+`p` % (not −100 %) leaves the removal with `total / (1 + p)` rounded half away from zero once at the
+row's working precision; the other rows and the row's combos are untouched, a retained included
+category is refused. -/
+theorem included_tax_removed_with_own_percentage (k : String) (rw : Row) (cb : Combo) (p : Pct)
+    (hfind : rw.taxes.find? (fun cb => cb.cat == k) = some cb) (hret : cb.retained = false)
+    (hp : cb.percent = some p) (hne : (factor p).value ≠ 0) :
+    ∃ rw', removeIncludedRow exactOps k rw = .ok rw' ∧ rw'.taxes = rw.taxes ∧ rw'.total.exp = rw.total.exp ∧
+      rw'.total.value = Spec.roundTo rw.total.exp (rw.total.toRat / (1 + p.amount.toRat)) := by
+  refine ⟨{ rw with total := remove exactOps rw.total p }, ?_, rfl, ?_, ?_⟩
+  · simp [removeIncludedRow, hfind, hret, hp]
+  · simp [remove, Amount.divX]
+    split <;> rfl
+  · simp only [remove, exact_div]
+    rw [divX_spec _ _ hne]
+    congr 1
+    have hf : (factor p).toRat = 1 + p.amount.toRat := by
+      have h := p10q_ne p.amount.exp
+      unfold factor Amount.toRat
+      push_cast
+      field_simp
+      ring
+    rw [hf]
+
+/-- rows without the included category, and exempt combos of it, pass through unchanged -/
+theorem included_removal_leaves_other_rows (k : String) (rw : Row)
+    (h : rw.taxes.find? (fun cb => cb.cat == k) = none) :
+    removeIncludedRow exactOps k rw = .ok rw := by
+  simp [removeIncludedRow, h]
+
 /-- **matching is equality of keys**: `RateTotal.matches` holds exactly when the group and the combo
 have the same extensions, country and — unless both are exempt — percentage and surcharge percentage
 by value.  An exempt combo never matches a 0 % group, a surcharged rate never an unsurcharged one. -/
